@@ -337,7 +337,77 @@ func (b *TB) Ite(c, x, y *Term) *Term {
 		}
 	}
 	if c.op == "not" {
-		return b.mk("ite", x.sort, c.args[0], y, x)
+		return b.Ite(c.args[0], y, x)
+	}
+	if x.sort.K == SBV && !x.bound && !y.bound {
+		if r := b.iteLinear(c, x, y); r != nil {
+			return r
+		}
+	}
+	return b.mk("ite", x.sort, c, x, y)
+}
+
+// iteLinear factors the common linear part out of an if-then-else:
+// ite(c, L + dx, L + dy) = L + ite(c, dx, dy), with the residual ite oriented
+// canonically (ite(c, dx, dy) or -ite(c, -dx, -dy)) so that a pointer that
+// advances by d and a length that shrinks by d share the same atom.
+func (b *TB) iteLinear(c, x, y *Term) *Term {
+	lx, ly := b.toLin(x), b.toLin(y)
+	if len(lx.atoms) == 0 && len(ly.atoms) == 0 {
+		return nil // both constants: keep the plain ite (constIteTree relies on it)
+	}
+	m := mask(lx.w)
+	common := lin{w: lx.w, c: new(big.Int)}
+	rx := lin{w: lx.w, c: lx.c}
+	ry := lin{w: lx.w, c: ly.c}
+	i, j := 0, 0
+	for i < len(lx.atoms) || j < len(ly.atoms) {
+		switch {
+		case j >= len(ly.atoms) || (i < len(lx.atoms) && lx.atoms[i].id < ly.atoms[j].id):
+			rx.atoms = append(rx.atoms, lx.atoms[i])
+			rx.coef = append(rx.coef, lx.coef[i])
+			i++
+		case i >= len(lx.atoms) || ly.atoms[j].id < lx.atoms[i].id:
+			ry.atoms = append(ry.atoms, ly.atoms[j])
+			ry.coef = append(ry.coef, ly.coef[j])
+			j++
+		default:
+			if new(big.Int).And(lx.coef[i], m).Cmp(new(big.Int).And(ly.coef[j], m)) == 0 {
+				common.atoms = append(common.atoms, lx.atoms[i])
+				common.coef = append(common.coef, lx.coef[i])
+			} else {
+				rx.atoms = append(rx.atoms, lx.atoms[i])
+				rx.coef = append(rx.coef, lx.coef[i])
+				ry.atoms = append(ry.atoms, ly.atoms[j])
+				ry.coef = append(ry.coef, ly.coef[j])
+			}
+			i++
+			j++
+		}
+	}
+	if len(common.atoms) == 0 {
+		return nil
+	}
+	// keep the smaller constant in the common part
+	dx := b.fromLin(rx)
+	dy := b.fromLin(ry)
+	if dx == dy {
+		return b.Add(b.fromLin(common), dx)
+	}
+	// canonical orientation: the residual whose negation has the smaller id wins
+	ndx, ndy := b.Neg(dx), b.Neg(dy)
+	var res *Term
+	if ndx.id+ndy.id < dx.id+dy.id {
+		res = b.Neg(b.mkIteRaw(c, ndx, ndy))
+	} else {
+		res = b.mkIteRaw(c, dx, dy)
+	}
+	return b.Add(b.fromLin(common), res)
+}
+
+func (b *TB) mkIteRaw(c, x, y *Term) *Term {
+	if x == y {
+		return x
 	}
 	return b.mk("ite", x.sort, c, x, y)
 }
